@@ -555,10 +555,10 @@ Inductive top_of : decl -> option string -> expr -> Prop :=
 
 (* the only run-time difference between the classes: a lower-case newtype name is recognised as a
    constructor only once its declaration has been lowered (struct_names), an upper-case one always *)
-Definition declared_before (T : string) (pre : list decl) : Prop :=
-  exists nt, In (DNewtype nt) pre /\ nt_name nt = T.
+Definition declared_before (T : string) (pre : list decl) : bool :=
+  existsb (fun d => match d with DNewtype nt => String.eqb (nt_name nt) T | _ => false end) pre.
 Definition Known_C17_lowercase_early (T : string) (pre : list decl) : Prop :=
-  is_uppercase T = false /\ ~ declared_before T pre.
+  is_uppercase T = false /\ declared_before T pre = false.
 
 (* all top-level lowered expressions of a lowered declaration list *)
 Definition irdecl_exprs (d : irdecl) : list ir :=
@@ -602,23 +602,30 @@ Section Eval.
           match eval a with Done v => Done (VNew T v) | o => o end
         else Stuck
     | IMethod r m args =>
-        match r, args with
-        | IVar T, [a] =>
+        match r with
+        | IVar T =>
             (* static call T::m(a) *)
-            match env T with
-            | Some _ => Stuck
-            | None => match eval a with Done v => Done (hookfn T m v) | o => o end
+            match args with
+            | [a] =>
+                match env T with
+                | Some _ => Stuck
+                | None => match eval a with Done v => Done (hookfn T m v) | o => o end
+                end
+            | _ => Stuck
             end
-        | _, [IStr msg] =>
-            if String.eqb m expect_name then
-              match eval r with
-              | Done (VOk v) => Done v
-              | Done (VErr p) => Raise msg p
-              | Done _ => Stuck
-              | o => o
-              end
-            else Stuck
-        | _, _ => Stuck
+        | _ =>
+            match args with
+            | [IStr msg] =>
+                if String.eqb m expect_name then
+                  match eval r with
+                  | Done (VOk v) => Done v
+                  | Done (VErr p) => Raise msg p
+                  | Done _ => Stuck
+                  | o => o
+                  end
+                else Stuck
+            | _ => Stuck
+            end
         end
     | _ => Stuck
     end.
@@ -720,10 +727,10 @@ Definition is_primitive (t : rty) : bool :=
 
 (* where the checker applies the rule when a value of one type meets an expectation of another.
    check_call (check_expr/calls.rs:604-640) type-checks the ARGUMENT EXPRESSIONS of a call of a
-   user function / method but never compares them with the parameter types. *)
+   user FUNCTION but never compares them with the parameter types (method calls do compare). *)
 Inductive mixsite := MReturn | MTypedLet | MReassign | MField | MCompare | MListElem | MCallArg | MMethodArg.
 Definition rule_applied (s : mixsite) : bool :=
-  match s with MCallArg | MMethodArg => false | _ => true end.
+  match s with MCallArg => false | _ => true end.
 (* verdict of the checker for "actual flows into expected at site s": true = accepted *)
 Definition check_mix (s : mixsite) (actual expected : rty) : bool :=
   if rule_applied s then compatible actual expected else true.
